@@ -15,7 +15,7 @@ TECHNIQUE = ('property-based long-history testing: generated adversarial frame f
 RULE = ('cases: one long run per case (quick 12 000 frames, thorough 300 000), composed of drawn flood phases: '
         'PRIORITY / WINDOW_UPDATE / RST_STREAM / unknown frame types on idle and closed ids, open-close churn with '
         'END_STREAM and resets from both sides, push-and-reset floods towards a client, header blocks with '
-        'CONTINUATION counts 60..66 and decoded sizes within a few bytes of MAX_HEADER_LIST_SIZE; probes after every '
+        'CONTINUATION counts 60..66 and decoded sizes within a few bytes of an acknowledged MAX_HEADER_LIST_SIZE of 0, 1, 300, 2000 or 15000; probes after every '
         'phase: len(streams) - live streams of the model, len(_closed_streams) <= MAX_CLOSED_STREAMS, empty input '
         'buffer, header buffer <= 64; the quick tier runs with the documented class constant MAX_CLOSED_STREAMS '
         'lowered to 64 in a subclass so the cap is exercised; evaluations count frames delivered; non-trivial = more '
@@ -157,6 +157,7 @@ def run_case(data):
                         break
             if buf and not dead:
                 feed(buf, k, phase)
+            delivered += 1
             if not dead and len(c.streams) != before:
                 r.violate('C27:non-opening-frames-allocated-stream-state:%s' % phase,
                           '%d -> %d' % (before, len(c.streams)))
@@ -197,8 +198,10 @@ def run_case(data):
                         ep.call('reset_stream', sid)
                     live.discard(sid)
                 closed_total += 1
+                delivered += 1      # local calls count as progress too: every case terminates
         elif phase == 'push-flood':
             if not client:
+                delivered += 1      # (a degenerate case that only ever draws this phase must still terminate)
                 continue
             parent = next_local
             next_local += 2
@@ -258,16 +261,22 @@ def run_case(data):
                     r.violate('C27:continuation-limit-wrong-code:%s' % o.code, '')
         elif phase == 'header-list-size':
             # acknowledged MAX_HEADER_LIST_SIZE lowered to 2000, then a list within a few bytes of it
-            o = ep.call('update_settings', {wire.S_MAX_HEADER_LIST_SIZE: 2000})
+            hls = ch.pick([2000, 2000, 300, 0, 1, 15000])
+            o = ep.call('update_settings', {wire.S_MAX_HEADER_LIST_SIZE: hls})
             feed(wire.settings(ack=True), 1, 'header-list-size')
             if dead:
                 break
             base = RESP if client else REQ
             base_size = sum(len(k) + len(v) + 32 for k, v in base)
             delta = ch.pick([-2, -1, 0, 1, 2, 40])
-            target = 2000 + delta
+            target = hls + delta
             fill = target - base_size - 32 - len(b'x-fill')
-            fields = base + [(b'x-fill', b'v' * fill)]
+            if fill >= 0:
+                fields = base + [(b'x-fill', b'v' * fill)]
+            else:
+                # the limit is smaller than any list that could open the stream: the bare list is already too big
+                fields = list(base)
+                target = base_size
             near_limit = near_limit or abs(delta) <= 1
             if client:
                 sid = next_local
@@ -277,8 +286,8 @@ def run_case(data):
                 sid = next_peer
                 next_peer += 2
             o = feed(wire.headers(sid, raw_block(fields)), 1, 'header-list-size')
-            r.step('header list size', target, 'limit', 2000, o.brief())
-            if target <= 2000:
+            r.step('header list size', target, 'limit', hls, o.brief())
+            if target <= hls:
                 if not o.ok:
                     r.violate('C27:header-list-within-limit-refused:delta=%d' % delta, o.brief())
                 live.add(sid)
